@@ -41,7 +41,8 @@ def gen_text(rng, big=False):
 
 
 NAMES = ["001_a.sql", "002_b.sql", "10.sql", "2.sql", ".hidden.sql", "x.down.sql", "x.sql.bak", "readme.md",
-         "a.SQL", "b.sql", "B.sql", "_c.sql", "down.sql", "y.up.sql", "z.down.sql.sql", ".sql", "q.sql~", "0.sql"]
+         "a.SQL", "b.sql", "B.sql", "_c.sql", "down.sql", "y.up.sql", "z.down.sql.sql", ".sql", "q.sql~", "0.sql",
+         "breakdown.sql", "x-down.sql", "a.DOWN.sql", "3_down.sql", "w.Down.sql"]
 
 
 def gen_tree(rng):
@@ -193,7 +194,20 @@ def layout_cases(rng):
         plist.insert(rng.randrange(len(plist) + 1), decoy)
     files_list["sqlc.json"] = cfg(plist)
     as_list = {"op": "generate", "files": files_list}
-    return chunks, [base, as_dir, as_list]
+    # the later part of the history in a sub-directory, listed after its parent directory (Glob does not descend, so the
+    # parent does not cover it); decoys stay in the parent
+    k = rng.randint(1, len(names)) if len(names) > 1 else len(names)
+    early = set(names[:k]) | set(extra_names.get(nm) for nm in names[:k])
+    files_nested = {}
+    for pth, body in files_dir.items():
+        if pth.startswith("mig/") and pth[4:] not in early and (pth[4:] in names or pth[4:] in extra_names.values()):
+            files_nested["mig/later/" + pth[4:]] = body
+        else:
+            files_nested[pth] = body
+    sub = rng.choice(["mig/later", "mig/later/"])
+    files_nested["sqlc.json"] = cfg(["mig", sub] if k < len(names) else ["mig"])
+    as_nested = {"op": "generate", "files": files_nested}
+    return chunks, [base, as_dir, as_list, as_nested]
 
 
 def run(tier, seed):
@@ -264,7 +278,7 @@ def run(tier, seed):
             rep.violation("correspondence corr:C14:glob broken (model != implementation)",
                           {"op": "glob", "files": sorted(f), "dirs": d, "paths": p, "impl": r}, no_input=True)
     for i, (chunks, js) in enumerate(lays):
-        rs = r_lay[3 * i:3 * i + 3]
+        rs = r_lay[4 * i:4 * i + 4]
         rep.case(("layout", json.dumps(js[1]["files"], sort_keys=True)), nontrivial=len(js[1]["files"]) > 3,
                  sample={"kind": "layout", "dir_files": sorted(js[1]["files"]), "ok": [x.get("ok") for x in rs]} if i % 41 == 0 else None)
         rep.count("layout:files=%d" % (len(js[1]["files"]) - 2))
@@ -276,14 +290,14 @@ def run(tier, seed):
                 outs.append("ERR:" + x.get("stderr", "") + str(x.get("panic", "")))
         if not rs[0].get("ok"):
             rep.count("layout:base-rejected")
-        if outs[1] != outs[0] or outs[2] != outs[0]:
-            which = "directory" if outs[1] != outs[0] else "path list"
+        if outs[1] != outs[0] or outs[2] != outs[0] or outs[3] != outs[0]:
+            which = "directory" if outs[1] != outs[0] else ("path list" if outs[2] != outs[0] else "directory followed by its sub-directory")
             rep.violation("split invariance: the same history laid out as a %s gives different models.go" % which,
-                          {"op": "generate x3", "single": js[0]["files"], "dir": js[1]["files"], "list": js[2]["files"],
+                          {"op": "generate x3", "single": js[0]["files"], "dir": js[1]["files"], "list": js[2]["files"], "nested": js[3]["files"], "models_nested": outs[3],
                            "models_single": outs[0], "models_dir": outs[1], "models_list": outs[2]})
     if getattr(rep, "proof_broken", None) and not rep.violations:
         rep.violation("proof obligation no longer checks: " + rep.proof_broken, {"theorem_file": "coq/theories/Props/C14.v", "detail": info}, no_input=True)
     return rep.finish("proof", ob, dis, checker_cmd(PROP),
-                      rule="random migration texts (4 marker dialects, near-miss markers, CRLF, long lines), random directory trees with decoys, and DDL histories laid out as one file / a directory / a path list; non-trivial = contains a marker, >1 file, or >1 migration file; distinct by content hash",
+                      rule="random migration texts (4 marker dialects, near-miss markers, CRLF, long lines), random directory trees with decoys, and DDL histories laid out as one file / a directory / a path list / a directory followed by its sub-directory; non-trivial = contains a marker, >1 file, or >1 migration file; distinct by content hash",
                       assumptions=["the engine's parser is compositional at statement boundaries (hypothesis of C14_split_*, exercised by the layout cases through the real parser)",
                                    "file system modelled as a function path -> file | directory listing"])
